@@ -26,7 +26,7 @@ func init() {
 				"of every fallible step that precedes it in its function, and every such step's error is checked; addRuleList keeps " +
 				"the previous list on each error edge. R4: the index conversion skips invalid entries and keeps converting the rest.",
 			NotCovered: "behaviour of the HTTP client under each fault kind; atomicity of renameio itself (trusted); disk-full and fsync semantics.",
-			Rules: map[string]string{"C13-R19": "setRuleLists installs a selected rule list only when a loaded version exists, so a list whose first download failed cannot reach a composite filter as nil (table shared with C02-R26)", "C13-R18": "the fixed cache-file names of the indexes, the safe-search and the hash-prefix lists are refused as rule-list keys by the index validation (all copies share one directory)", "C13-R17": "RefreshInitial accepts stale copies on disk (true), the periodic Refresh does not (false), for the storage and the hash-prefix filters", "C13-R16": "a consumer that can reject downloaded text does so before the text replaces the cache file (otherwise the rejected file is what the next start loads)", "C13-R15": "loadIndex (rule lists and blocked services): any load or decoding error rejects the whole index", "C13-R14": "builder wiring of the hash-prefix filters: own ID, cache file, storage and URL each (shared with C11-R11)", "C13-RC": "class rules (error chains, shadowed results, character classes, crossed arguments, pool constructors, array pools, loop completeness, loop-carried buffers, replacing setters, complete clones, Grow arithmetic, pooled-buffer escape, sorted searches, fresh decode targets, per-iteration objects, whole-message copies, codec guards) over the packages this property rests on", "C13-R13": "loadIndex only sorts the decoded entries; none is removed before validation", "C13-R12": "in-place list refresh: engine swap and cache clear under one write lock; same-typed arguments (acceptStale vs cache switches) are not crossed", "C13-R11": "the periodic refresh worker: the loop ends only on shutdown, refreshes on every uninterrupted tick, survives a failed refresh; shutdown refresh exactly when configured; constructor field map", "C13-R9": "an index key is converted to filter.ID only where the same field is validated by filter.NewID in the package", "C13-R10": "components with RefreshInitial are started through it in package cmd, never through their periodic Refresh", "C13-R1": "download / replace protocol tables", "C13-R2": "who may mutate files",
+			Rules: map[string]string{"C13-R20": "the JSON entry types of the rule-list and blocked-service indexes have only string (or list-of-string) fields, so a malformed entry cannot fail the decoding of the whole index", "C13-R19": "setRuleLists installs a selected rule list only when a loaded version exists, so a list whose first download failed cannot reach a composite filter as nil (table shared with C02-R26)", "C13-R18": "the fixed cache-file names of the indexes, the safe-search and the hash-prefix lists are refused as rule-list keys by the index validation (all copies share one directory)", "C13-R17": "RefreshInitial accepts stale copies on disk (true), the periodic Refresh does not (false), for the storage and the hash-prefix filters", "C13-R16": "a consumer that can reject downloaded text does so before the text replaces the cache file (otherwise the rejected file is what the next start loads)", "C13-R15": "loadIndex (rule lists and blocked services): any load or decoding error rejects the whole index", "C13-R14": "builder wiring of the hash-prefix filters: own ID, cache file, storage and URL each (shared with C11-R11)", "C13-RC": "class rules (error chains, shadowed results, character classes, crossed arguments, pool constructors, array pools, loop completeness, loop-carried buffers, replacing setters, complete clones, Grow arithmetic, pooled-buffer escape, sorted searches, fresh decode targets, per-iteration objects, whole-message copies, codec guards) over the packages this property rests on", "C13-R13": "loadIndex only sorts the decoded entries; none is removed before validation", "C13-R12": "in-place list refresh: engine swap and cache clear under one write lock; same-typed arguments (acceptStale vs cache switches) are not crossed", "C13-R11": "the periodic refresh worker: the loop ends only on shutdown, refreshes on every uninterrupted tick, survives a failed refresh; shutdown refresh exactly when configured; constructor field map", "C13-R9": "an index key is converted to filter.ID only where the same field is validated by filter.NewID in the package", "C13-R10": "components with RefreshInitial are started through it in package cmd, never through their periodic Refresh", "C13-R1": "download / replace protocol tables", "C13-R2": "who may mutate files",
 				"C13-R3": "commit only after success", "C13-R4": "invalid index entries skipped, not aborting",
 				"C13-R7": "exact HTTP status check; only the size-limited reader that fails at the limit is used on a list's path",
 				"C13-R6": "blocked-service index: any invalid entry rejects the whole update",
@@ -248,6 +248,8 @@ func runC13(c *an.Ctx) {
 	c.Floor("C13-R16", 4)
 	c13AcceptedBeforeCommit(c)
 	c13CacheNames(c, "C13-R18")
+	c.Floor("C13-R20", 2)
+	c13IndexFieldsPlain(c, "C13-R20")
 	if n := c13StaleFlags(c, "C13-R17"); n < 4 {
 		c.Und("C13-R17", "stale-copy flags of the refreshes", token.NoPos, "only %d refresh calls with a constant acceptStale found (expected the storage and the hash-prefix filters, start-up and periodic)", n)
 	}
@@ -1468,4 +1470,45 @@ func c13CacheNames(c *an.Ctx, rule string) {
 	c.Check(len(missing) == 0 && len(validators) > 0, rule, key, token.NoPos,
 		fmt.Sprintf("%d fixed cache-file names, each refused as a rule-list key by the index validation", len(fixed)),
 		"the index validation accepts as rule-list keys the names "+strings.Join(missing, ", ")+": a rule list with such a key and the component that owns the name overwrite each other's copy on disk, and the next start loads the wrong content")
+}
+
+// c13IndexFieldsPlain: an index is decoded as a whole, entry by entry
+// validation comes afterwards, and an invalid entry must not keep the valid
+// ones from being applied.  That only works while the decoded entry types hold
+// plain strings (and lists of strings): a field of a type with an unmarshaler of
+// its own (a URL, an ID type) makes json.Decode fail for the whole index when one
+// entry is malformed.  Every field of the JSON entry types of the rule-list and
+// blocked-service indexes is a string or a slice of strings.
+func c13IndexFieldsPlain(c *an.Ctx, rule string) {
+	for _, tn := range [][2]string{{"filter/filterstorage", "indexRespFilter"}, {"filter/internal/serviceblock", "indexRespService"}} {
+		key := tn[0] + "." + tn[1] + " is decoded into plain strings"
+		pkg := c.Pkg(tn[0])
+		if pkg == nil {
+			c.Und(rule, key, token.NoPos, "package not loaded")
+			continue
+		}
+		obj := pkg.Types.Scope().Lookup(tn[1])
+		if obj == nil {
+			c.Und(rule, key, token.NoPos, "type not found")
+			continue
+		}
+		st, ok := obj.Type().Underlying().(*types.Struct)
+		if !ok {
+			c.Und(rule, key, obj.Pos(), "not a struct")
+			continue
+		}
+		var bad []string
+		for i := 0; i < st.NumFields(); i++ {
+			f := st.Field(i)
+			t := f.Type()
+			if sl, isSlice := t.(*types.Slice); isSlice {
+				t = sl.Elem()
+			}
+			if b, isBasic := t.(*types.Basic); !isBasic || b.Kind() != types.String {
+				bad = append(bad, f.Name()+" "+f.Type().String())
+			}
+		}
+		c.Check(len(bad) == 0, rule, key, obj.Pos(), fmt.Sprintf("%d fields, each a string or a list of strings", st.NumFields()),
+			"fields with a decoding of their own: "+strings.Join(bad, ", ")+": one malformed entry makes the decoding of the whole index fail, so the valid entries are not applied (and a restart on the cached copy fails)")
+	}
 }
